@@ -851,23 +851,10 @@ func (r *c8Run) run(c *C8Case) {
 
 // c8Observe: one observation of the implementation, preferring the sequential mode
 func c8Observe(exp string, multi bool) c8Obs {
-	var obs c8Obs
-	retries := 0
-	for {
-		obs = c8Eval(exp, 2*time.Second)
-		if !obs.Parallel || retries >= 4 || multi {
-			break
-		}
-		// MapAuto/FilterAuto measured more than 200 us per element (a loaded machine: the closures here take
-		// about 2 us) and moved the stage to worker goroutines.  Let the workers of that run finish their
-		// element (they tick after the call has returned), then observe the sequential mode again.
-		retries++
-		time.Sleep(time.Duration(5*retries) * time.Millisecond)
-	}
-	obs.Retries = retries
-	if obs.Parallel {
-		time.Sleep(20 * time.Millisecond)
-	}
+	// If MapAuto/FilterAuto measured more than 200 us per element (a loaded machine: the closures here take about
+	// 2 us) a stage has moved to worker goroutines; those may still tick after the call has returned, so the
+	// child process is replaced after such an observation (cmdC08Child) and the case is repeated on one CPU.
+	obs := c8Eval(exp, 2*time.Second)
 	if multi {
 		obs.Parallel = false // the consumers of multiUse run on goroutines by design
 	}
@@ -908,6 +895,11 @@ func cmdC08Child(seed int64, tier, dir string) {
 			// the evaluation is still running on its goroutine (and may allocate without bound)
 			out.Close()
 			os.Exit(3)
+		}
+		if obs.Parallel {
+			// worker goroutines of this evaluation may still be ticking: continue in a fresh process
+			out.Close()
+			os.Exit(4)
 		}
 	}
 	out.Close()
@@ -959,6 +951,12 @@ func (r *c8Run) runChildren(jobs []*c8Job, pinned bool, dir string) {
 			}
 			return
 		}
+		if ee, ok := runErr.(*exec.ExitError); ok && ee.ExitCode() == 4 && done > 0 {
+			// the child stopped on purpose after an observation in parallel mode
+			jobs = jobs[done:]
+			restarts--
+			continue
+		}
 		// the child died while evaluating jobs[done]
 		if done < len(jobs) {
 			msg := stderr.String()
@@ -966,7 +964,9 @@ func (r *c8Run) runChildren(jobs []*c8Job, pinned bool, dir string) {
 				msg = msg[:600]
 			}
 			jobs[done].obs, jobs[done].have = c8Obs{Kind: "crash", Err: msg}, true
+			c8mu.Lock()
 			r.sum.Count("child_process_crashes", map[bool]string{true: "pinned", false: "unpinned"}[pinned])
+			c8mu.Unlock()
 			done++
 		}
 		jobs = jobs[done:]
@@ -988,14 +988,21 @@ func (r *c8Run) evaluate(dir string) {
 			plain = append(plain, j)
 		}
 	}
-	// 1. the default configuration: MapAuto/FilterAuto with their timing-based switch
-	r.runChildren(plain, false, filepath.Join(dir, "child"))
-	if len(multi) > 0 && !r.aborted {
-		r.runChildren(multi, true, filepath.Join(dir, "child"))
-		for _, j := range multi {
-			j.first = "multiUse"
-		}
+	// 1. the default configuration: MapAuto/FilterAuto with their timing-based switch (the multiUse cases
+	//    run beside it, in their own child pinned to CPU 0)
+	var wg sync.WaitGroup
+	if len(multi) > 0 {
+		wg.Add(1)
+		go func() {
+			defer wg.Done()
+			r.runChildren(multi, true, filepath.Join(dir, "child-multi"))
+			for _, j := range multi {
+				j.first = "multiUse"
+			}
+		}()
 	}
+	r.runChildren(plain, false, filepath.Join(dir, "child"))
+	wg.Wait()
 	// 2. whatever ran in parallel mode in every attempt, or crashed there, again on one CPU
 	var again []*c8Job
 	for _, j := range plain {
@@ -1034,7 +1041,7 @@ func (r *c8Run) judge(j *c8Job) {
 	default:
 		r.sum.Count("evaluated", "default configuration (MapAuto/FilterAuto, sequential branch)")
 	}
-	if obs.Kind == "generr" {
+	if obs.Kind == "generr" && !strings.Contains(obs.Err, "closures were evaluated while generating") {
 		fatal("C08: expression does not generate: %s: %s", exp, obs.Err)
 	}
 	r.id++
@@ -1086,6 +1093,8 @@ func (r *c8Run) judge(j *c8Job) {
 	switch {
 	case obs.Kind == "crash":
 		symptom, what = "process-crash", "the process evaluating the expression died: "+obs.Err
+	case obs.Kind == "generr":
+		symptom, what = "generate-evaluates-closures", fmt.Sprintf("Generate evaluated %d closure calls", len(obs.Log))
 	case obs.Kind == "timeout":
 		symptom, what = "no-prompt-termination", fmt.Sprintf("the call did not return within 2 s (ticks so far: %d, needed prefix %d)", len(obs.Log), need)
 	case c.Term.Kind == "none" && (obs.Kind != "list" || len(obs.Log) > 0):
@@ -1130,7 +1139,7 @@ func (r *c8Run) judge(j *c8Job) {
 		r.sum.Extra["aborted_after_timeout"] = exp
 		return
 	}
-	if obs.Kind == "crash" {
+	if obs.Kind == "crash" || obs.Kind == "generr" {
 		return
 	}
 	if c.Multi != nil {
@@ -1550,7 +1559,7 @@ func cmdC08(seed int64, tier, outDir string) {
 	}
 	// systematic sweep: shape x decisive position x failure offset
 	jmax, jstep := 40, 1
-	failEvery := 8 // failure variants for every eighth base case in the quick tier, all in thorough
+	failEvery := 12 // failure variants for every twelfth base case in the quick tier, all in thorough
 	if tier == "thorough" {
 		failEvery = 1
 	}
@@ -1641,7 +1650,7 @@ func cmdC08(seed int64, tier, outDir string) {
 		}
 	}
 	// random pipelines
-	n := 300
+	n := 200
 	if tier == "thorough" {
 		n = 40000
 	}
